@@ -200,7 +200,7 @@ func (c *Ctx) allocRule(eng *ranges.Engine, funcs map[*ssa.Function]bool) int {
 		fns = append(fns, fn)
 	}
 	sort.Slice(fns, func(i, j int) bool { return fns[i].String() < fns[j].String() })
-	n := 0
+	n, nExp := 0, 0
 	seen := map[string]int{}
 	for _, fn := range fns {
 		for _, b := range fn.Blocks {
@@ -211,6 +211,15 @@ func (c *Ctx) allocRule(eng *ranges.Engine, funcs map[*ssa.Function]bool) int {
 				}
 				av := eng.At(fn, mk.Len, b)
 				if av.IsBottom() || !av.Taint {
+					continue
+				}
+				if av.Blowup {
+					// ALLOC-EXP: the size is 1<<n (times constants) with a stream-controlled n that nothing keeps
+					// below 31 — through data flow or through a trip count (1 << bitLength(maxVal)): a header byte
+					// selects the allocation size exponentially, whatever the declared geometry
+					nExp++
+					c.add("ALLOC-EXP", fn, "make("+strings.TrimPrefix(mk.Type().String(), load.ModPath+"/")+", "+addrExpr(mk.Len)+")", report.Violated, c.P.Pos(mk.Pos()),
+						"allocation size "+av.String()+" is derived from 1<<n with a stream-controlled n that no check keeps below 31: a few header bytes request gigabytes — memory unrelated to the declared width x height x components")
 					continue
 				}
 				isFill, how := c.fillTarget(mk, 0, map[ssa.Value]bool{})
